@@ -122,6 +122,9 @@ def run(
     with open(os.path.join(wd, "MC.cfg"), "w") as f:
         f.write(cfg_text)
     cmd = ["java", "-XX:+UseParallelGC", "-Xmx" + heap]
+    if not (env and "-Xss" in env.get("JAVA_TOOL_OPTIONS", "")):
+        # recursive operators over long sequences (folds, sums over slices) overflow the default 1 MB thread stack
+        cmd.append("-Xss512m")
     if deque:
         cmd.append("-Dtlc2.tool.queue.IStateQueue=StateDeque")
     if dump:
